@@ -96,3 +96,16 @@ package font
 //@   loop 0:
 //@     invariant 0 <= i && i <= len(data)
 //@     decreases len(data) - i
+
+// ToUnicode targets are UTF-16BE (ISO 32000-1 9.10.3): one step of the decoder consumes one code unit (BMP) or a
+// surrogate pair and appends the UTF-8 encoding of exactly that scalar value (RFC 2781).
+//@ spec func isHighSur(v int) bool = v >= 55296 && v <= 56319
+//@ spec func isLowSur(v int) bool = v >= 56320 && v <= 57343
+//@ func decodeUTF16BE results (r, err)
+//@   property C07, C02
+//@   ensures odd_length_rejected: mod(len(data), 2) != 0 ==> err
+//@   loop 0:
+//@     invariant mod(len(buf), 2) == 0 && len(buf) >= 0
+//@     step bmp_unit: prev(len(buf)) >= 2 && !isHighSur(be16(prev(buf), 0)) ==> len(buf) == prev(len(buf)) - 2 && samebase(buf, prev(buf)) && off(buf) == off(prev(buf)) + 2 && same(result, strcat(prev(result), utf8enc(be16(prev(buf), 0))))
+//@     step surrogate_pair: prev(len(buf)) >= 4 && isHighSur(be16(prev(buf), 0)) && isLowSur(be16(prev(buf), 2)) ==> len(buf) == prev(len(buf)) - 4 && samebase(buf, prev(buf)) && off(buf) == off(prev(buf)) + 4 && same(result, strcat(prev(result), utf8enc(65536 + (be16(prev(buf), 0) - 55296) * 1024 + (be16(prev(buf), 2) - 56320))))
+//@     decreases len(buf)
